@@ -3,7 +3,7 @@ from ..core import holds, violation, unrecognised
 from . import dls
 
 ID = "C04"
-ANCHORS = 'deep_lift_shap._nonlinear,deep_lift_shap.hypothetical_attributions,deep_lift_shap._register_hooks,deep_lift_shap._fp_hook,deep_lift_shap._f_hook,deep_lift_shap._b_hook'.split(",")
+ANCHORS = 'deep_lift_shap._nonlinear,deep_lift_shap.hypothetical_attributions,deep_lift_shap._register_hooks,deep_lift_shap._fp_hook,deep_lift_shap._f_hook,deep_lift_shap._b_hook,deep_lift_shap.deep_lift_shap'.split(",")
 MIN_INSTANCES = 9
 # rule families whose findings in this module are derived by an engine (not by comparing spellings): exempt from the rewrite gate
 SEMANTIC_RULES = {"REFGRAD"}
